@@ -329,6 +329,7 @@ class ScoredCollector(Collector):
 
         Collector.__init__(self)
         self.replace = replace
+        self.may_have_dropped = False
 
     def prepare(self, top_searcher, q, context):
         # This collector requires a valid matcher at each step
@@ -348,6 +349,9 @@ class ScoredCollector(Collector):
         self.replaced_times = 0
         # Number of blocks skipped by quality optimizations (for debugging)
         self.skipped_times = 0
+        # True once the matcher was replaced or skipped ahead using a minimum
+        # score, i.e. matching documents may not have been seen by collect()
+        self.may_have_dropped = False
 
     def sort_key(self, sub_docnum):
         return 0 - self.matcher.score()
@@ -397,6 +401,8 @@ class ScoredCollector(Collector):
                     if self.final_fn:
                         matcher = matcher.replace(0)
                     else:
+                        if minscore:
+                            self.may_have_dropped = True
                         matcher = matcher.replace(minscore or 0)
                     self.matcher = matcher
                     self.replaced_times += 1
@@ -415,6 +421,7 @@ class ScoredCollector(Collector):
             # flag is true, try to skip ahead to the next block with the
             # minimum required quality
             if usequality and checkquality and minscore is not None:
+                self.may_have_dropped = True
                 self.skipped_times += matcher.skip_to_quality(minscore)
                 # Skipping ahead might have moved the matcher to the end of the
                 # posting list
@@ -451,7 +458,10 @@ class TopCollector(ScoredCollector):
                 and self.matcher.supports_block_quality())
 
     def computes_count(self):
-        return not self._use_block_quality()
+        # self.total is only the number of matching documents if no
+        # optimization could have made the matcher pass over some of them
+        # (in this or an earlier segment)
+        return not (self.may_have_dropped or self._use_block_quality())
 
     def all_ids(self):
         # Since this collector can skip blocks, it doesn't track the total
